@@ -8,7 +8,7 @@ frontend) and returns a `Built` with the file and the list of addressable units:
     path (i,)          i-th program unit of the file (Module or Subroutine/Function)
     path (i, j)        j-th procedure contained in unit i (module procedure or internal procedure)
 
-31 entries; the zoo is ordered by family (routines, modules, files); `ZOO_QUICK` is the prefix/selection used by quick tiers.
+33 entries; the zoo is ordered by family (routines, modules, files); `ZOO_QUICK` is the prefix/selection used by quick tiers.
 Features per entry are listed in `features` so that a check can assert coverage (vacuity guards).
 """
 import collections
@@ -149,6 +149,37 @@ subroutine r_assoc(n, a, b)
   end associate
 end subroutine r_assoc
 """, features=['routine', 'associate'])
+
+_add('r_assoc_nested', """
+subroutine r_assoc_nested(n, a, b)
+  integer, intent(in) :: n
+  real, intent(inout) :: a(n), b(n)
+  integer :: i
+  associate (p => a)
+    p(1) = 0.0
+    associate (q => b, m => n)
+      do i = 1, m
+        q(i) = p(i) + 1.0
+      end do
+    end associate
+  end associate
+end subroutine r_assoc_nested
+""", features=['routine', 'associate', 'nested-scoped-node'])
+
+_add('r_assoc_loop', """
+subroutine r_assoc_loop(n, a, b)
+  integer, intent(in) :: n
+  real, intent(inout) :: a(n), b(n)
+  integer :: i
+  associate (p => a)
+    do i = 1, n
+      associate (q => b(i))
+        q = p(i) * 2.0
+      end associate
+    end do
+  end associate
+end subroutine r_assoc_loop
+""", features=['routine', 'associate', 'loop', 'nested-scoped-node'])
 
 _add('r_cond', """
 subroutine r_cond(k, x, flag)
@@ -544,7 +575,7 @@ end module fb_mod
 ZOO = tuple(_Z)
 ZOO_BY_NAME = {e.name: e for e in ZOO}
 # quick tiers: one representative of every structural family
-QUICK_NAMES = ('r_plain', 'f_result', 'r_init', 'r_member', 'r_assoc', 'r_import_type', 'r_cast', 'r_intf', 'm_type', 'm_two',
+QUICK_NAMES = ('r_plain', 'f_result', 'r_init', 'r_member', 'r_assoc', 'r_assoc_nested', 'r_assoc_loop', 'r_import_type', 'r_cast', 'r_intf', 'm_type', 'm_two',
                'm_full', 'm_bound', 'm_member', 'file_mod_and_routine', 'file_two_modules')
 ZOO_QUICK = tuple(ZOO_BY_NAME[n] for n in QUICK_NAMES)
 
